@@ -506,7 +506,7 @@ class Interp:
                 return True
             if is_sym(other):
                 k = sym.kind(other)
-                if k in ("int", "bytes", "str", "bool"):
+                if k in ("int", "bytes", "str", "bool", "obj"):
                     return False
                 return None
             return False
